@@ -58,6 +58,7 @@ fn real_main(args: Vec<String>) -> i32 {
     match cmd {
         "run" => cmd_run(&args),
         "replay" => cmd_replay(&args),
+        "find" => cmd_find(&args),
         "minimise" => cmd_minimise(&args),
         "merge-hashes" => cmd_merge(&args),
         "selfcheck" => cmd_selfcheck(),
@@ -238,7 +239,15 @@ fn cmd_replay(args: &[String]) -> i32 {
         };
         let fp = v["fingerprint"].as_str().unwrap_or("");
         let mut stats = stats::Stats::default();
-        let vs = run_one(&cat, engine, &c.prop, rs, args, &mut stats).unwrap_or_default();
+        // caps recorded by the minimiser
+        let mut rargs: Vec<String> = args.to_vec();
+        for (k, flag) in [("size_cap", "--size-cap"), ("event_cap", "--event-cap")] {
+            if let Some(x) = v[k].as_str() {
+                rargs.push(flag.to_string());
+                rargs.push(x.to_string());
+            }
+        }
+        let vs = run_one(&cat, engine, &c.prop, rs, &rargs, &mut stats).unwrap_or_default();
         match vs.iter().find(|x| x.fingerprint() == fp) {
             Some(x) => {
                 println!("reproduced: run seed {rs} of engine {engine} again gives {} : {}", fp, x.finding.detail);
@@ -255,6 +264,34 @@ fn cmd_replay(args: &[String]) -> i32 {
         println!("reproduced: property={} clause={} class={} type={} : {}", c.prop, c.clause, f.class, c.read_as, f.detail);
         println!("VIOLATION property={} replay={}", c.prop, path);
         1
+    }
+}
+
+/// re-runs one run seed (with caps on value size and event count) and writes the violation with the
+/// given fingerprint, if it still occurs: the supervisor uses it to shrink skew worlds
+fn cmd_find(args: &[String]) -> i32 {
+    let engine = arg(args, "--engine").unwrap();
+    let focus = arg(args, "--focus").unwrap();
+    let rs: u64 = arg(args, "--run-seed").unwrap().parse().unwrap();
+    let fp = arg(args, "--fingerprint").unwrap();
+    let out = arg(args, "--out").unwrap();
+    let cat = catalog::builtin_catalog();
+    let mut stats = stats::Stats::default();
+    let vs = run_one(&cat, &engine, &focus, rs, args, &mut stats).unwrap_or_default();
+    match vs.iter().filter(|v| v.fingerprint() == fp).min_by_key(|v| v.case.input.len()) {
+        Some(v) => {
+            let mut j = v.to_json();
+            j["engine"] = json!(engine);
+            if let Some(c) = arg(args, "--size-cap") {
+                j["size_cap"] = json!(c);
+            }
+            if let Some(c) = arg(args, "--event-cap") {
+                j["event_cap"] = json!(c);
+            }
+            std::fs::write(out, serde_json::to_vec_pretty(&j).unwrap()).unwrap();
+            0
+        }
+        None => 1,
     }
 }
 
